@@ -372,7 +372,12 @@ def latex_tokens(out):
                 while j < n and out[j].isalpha(): j += 1
                 name = out[i + 1:j]
                 if j < n and out[j] == ' ': j += 1          # a control word eats one following space
-                elif out[j:j + 2] == '\\ ': pass
+                if name == 'href':
+                    # \href[options]{url}{text}: the options and the URL are arguments of their own
+                    if out[j:j + 1] == '[':
+                        j = out.find(']', j) + 1
+                    if out[j:j + 1] == '{':
+                        j = out.find('}', j) + 1
                 toks.append(('cw', name, d)); i = j
             elif i + 1 < n:
                 toks.append(('c', ' ' if out[i + 1] == ' ' else out[i + 1], d)); i += 2
@@ -384,6 +389,12 @@ def latex_tokens(out):
             toks.append(('c', c, d)); i += 1
     return toks
 
+def adjacent_strings(t):
+    if t[0] in (0, 1):
+        return False
+    ps = t[-1]
+    return any(a[0] == 0 and b[0] == 0 for a, b in zip(ps, ps[1:])) or any(adjacent_strings(p) for p in ps)
+
 def oracle_latex(tree, out):
     strs = [S(x) for x in tree_strings(tree, [])]
     lv = leaves(tree)
@@ -392,21 +403,23 @@ def oracle_latex(tree, out):
         return 'LaTeX output has unbalanced braces although every string of the tree is balanced: %r' % (out,)
     if not all(c in LATEX_INERT or c in '#%&_~' for c in chars):
         return None
-    if any(n[0] == 4 for n in markup_nodes(tree)):
-        # links: the URL is an argument of its own; check it separately from the depth profile
-        return oracle_latex_links(tree, out)
-    # every character sits inside exactly the groups of the markup nodes it was attached to
+    if adjacent_strings(tree):
+        # only reachable by setting .parts directly (the constructors merge adjacent strings): each
+        # string is encoded on its own, so a control word ending one string swallows a space starting the next
+        return None
+    # the text is neither lost nor reordered, and every character sits inside the groups of the
+    # markup nodes it was attached to: at least one group per enclosing Protected, at most one per
+    # enclosing markup node (a link's URL and options are arguments of their own)
     exp = []
     for a, st in lv:
-        d = len(st)
         if isinstance(a, str):
-            exp.append(('c', a, d))
+            exp.append(('c', a, st))
         elif a[1] == 'nbsp':
-            exp.append(('nbsp', '~', d))
+            exp.append(('nbsp', '~', st))
         elif a[1] == 'ndash':
-            exp.extend([('c', '-', d), ('c', '-', d)])
+            exp.extend([('c', '-', st), ('c', '-', st)])
         elif a[1] == 'newblock':
-            exp.extend([('c', '\n', d), ('cw', 'newblock', d)])
+            exp.extend([('c', '\n', st), ('cw', 'newblock', st)])
     got = []
     for (k, v, d) in latex_tokens(out):
         if k == 'cw' and v == 'textasciitilde':
@@ -415,12 +428,12 @@ def oracle_latex(tree, out):
             continue                                  # a command emitted for a tag
         else:
             got.append((k, v, d))
-    if got != exp:
-        return 'LaTeX output: characters / group depths %r differ from the text %r: %r' % (got[:40], exp[:40], out)
-    return None
-
-def oracle_latex_links(tree, out):
-    # with links, compare the characters outside \href/\url arguments only by content
+    if [g[:2] for g in got] != [e[:2] for e in exp]:
+        return 'LaTeX output: characters %r differ from the text %r: %r' % ([g[1] for g in got][:40], [e[1] for e in exp][:40], out)
+    for (k, v, d), (_, _, st) in zip(got, exp):
+        nprot = sum(1 for m in st if m == ('prot',))
+        if not (nprot <= d <= len(st)):
+            return 'LaTeX output: %r sits at brace depth %d but was attached to %d markup nodes (%d protected groups): %r' % (v, d, len(st), nprot, out)
     return None
 
 PLAIN_SYM = {'nbsp': '(?: |\xa0)', 'ndash': '(?:--|-|–)', 'newblock': '(?: |\n)'}
